@@ -175,6 +175,23 @@ def theorems_of(path):
     return out
 
 
+def import_closure(mods):
+    """Project files reachable from mods through `import SdnsVerif.*` / `import Driver.*`."""
+    seen, todo, files = set(), list(mods), []
+    while todo:
+        m = todo.pop()
+        if m in seen:
+            continue
+        seen.add(m)
+        f = os.path.join(LEAN, m.replace(".", "/") + ".lean")
+        if not os.path.exists(f):
+            continue
+        files.append(f)
+        for mm in re.finditer(r"^\s*(?:public\s+)?import\s+((?:SdnsVerif|Driver)\.[\w.]+)", strip_comments(open(f).read()), re.M):
+            todo.append(mm.group(1))
+    return files
+
+
 def lean_modules_files(mods):
     return [os.path.join(LEAN, m.replace(".", "/") + ".lean") for m in mods]
 
@@ -219,10 +236,11 @@ def lean_phase(spec, facts, tier):
             if rc3 != 0:
                 rc = rc3
                 res["log"] += "\nLEANCHECKER FAILED:\n" + (so3 + se3)[-2000:]
-    # forbidden tokens anywhere in the project (comments stripped)
-    for f in glob.glob(os.path.join(LEAN, "**/*.lean"), recursive=True):
-        if "/.lake/" in f:
-            continue
+    # forbidden tokens anywhere in what this property's theorems and model
+    # executable are built from: the import closure of the props module and of
+    # the driver (comments stripped). Other properties' files are their own
+    # checks' business.
+    for f in import_closure([props_mod, "Driver.%sMain" % pid]):
         m = FORBIDDEN.search(strip_comments(open(f).read()))
         if m:
             res["forbidden"].append("%s: %s" % (os.path.relpath(f, LEAN), m.group(0).strip()))
